@@ -635,7 +635,7 @@ func (ref *Node) DoGetByRow(r node.ListRequest) (node.Node, []val.Value, error) 
 		key = make([]val.Value, len(keyVals))
 		var err error
 		for i := 0; i < len(keyVals); i++ {
-			if key[i], err = node.NewValue(r.Meta.KeyMeta()[0].Type(), keyVals[i].Interface()); err != nil {
+			if key[i], err = node.NewValue(r.Meta.KeyMeta()[i].Type(), keyVals[i].Interface()); err != nil {
 				return nil, nil, err
 			}
 		}
